@@ -88,9 +88,13 @@ Definition farAddress (p : Z) : Z := u32 p / 8 * 8.
 Definition farSegment (p : Z) : Z := u32 (p / 4294967296).
 Definition otherPointerType (p : Z) : Z := u32 p / 4.
 Definition capabilityIndex (p : Z) : Z := u32 (p / 4294967296).
-(* tag &^ 0xfffffffc | uint32(far &^ 3) >> 1 *)
+(* tag &^ 0xfffffffc | uint32(far &^ 3) >> 1.
+   The two operands overlap in bit 1 when far has bit 2 set (a double-far pointer word) and tag
+   has bit 1 set (far/other pointer word), so this is an OR, not a sum: e.g. far = 4, tag = 2
+   gives 2 (the sum would be 4).  For a far-pointer landing pad (far mod 8 = 2) or a
+   struct/list tag (tag mod 4 < 2) it is the sum, see ArithFacts.landingPadNearPointer_sum. *)
 Definition landingPadNearPointer (far tag : Z) : Z :=
-  (tag / 4294967296) * 4294967296 + (u32 far / 4 * 4) / 2 + tag mod 4.
+  Z.lor ((tag / 4294967296) * 4294967296 + tag mod 4) ((u32 far / 4 * 4) / 2).
 
 (* constructors *)
 Definition nearPointerOffset (paddr addr : Z) : Z := s32 (addr / 8 - paddr / 8 - 1).
